@@ -7,7 +7,7 @@ position; shapes, colours / balance factors, comparator magnitude, stop point ar
 """
 from vf import Q
 
-MODELS = ["models/alloc.c", "models/verif.c", "models/libc_stub.c"]
+MODELS = ["models/verif.c", "models/libc_stub.c"]
 UNITS = ["src/pmem.c"]
 INCLUDED = ["src/ptree.c", "src/ptree-bst.c", "src/ptree-rb.c", "src/ptree-avl.c"]
 TNAME = {0: "bst", 1: "rb", 2: "avl"}
@@ -24,14 +24,19 @@ COMMON_FUNCS = ["p_tree_new", "p_tree_new_with_data", "p_tree_new_full", "p_tree
                 "p_tree_foreach", "p_tree_clear", "p_tree_free", "p_tree_get_nnodes", "p_tree_get_type"]
 
 
+def REMNAME(c):
+    return ["leaf", "leftonly", "rightonly"][c] if c < 3 else "two_pred%d" % (c - 3)
+
+
 def unwindset(h, post_extra=1):
     """explicit bound for every loop of the real code; pre-state height <= h, n <= 2^h-1 (+1 after insert)"""
     n = (1 << h) - 1 + post_extra
     d = h + 2           # descent over a tree of height <= h+1
     return {
         "p_tree_lookup.0": d,
-        "p_tree_foreach.0": 2 * n + 2, "p_tree_foreach.1": h + 2,
-        "p_tree_clear.0": 2 * n + 2, "p_tree_clear.1": n + 1,
+        # nested loops: CBMC numbers the INNER loop .0, the outer one .1
+        "p_tree_foreach.0": h + 2, "p_tree_foreach.1": 2 * n + 2,
+        "p_tree_clear.0": n + 1, "p_tree_clear.1": 2 * n + 2,
         "p_tree_bst_insert.0": h + 1, "p_tree_bst_remove.0": h + 1, "p_tree_bst_remove.1": h + 1,
         "p_tree_rb_insert.0": h + 1, "p_tree_rb_remove.0": h + 1, "p_tree_rb_remove.1": h + 1,
         "pp_tree_rb_balance_insert.0": h + 1, "pp_tree_rb_balance_remove.0": h + 1,
@@ -40,16 +45,106 @@ def unwindset(h, post_extra=1):
     }
 
 
-def step(prop, tt, h, op, kpos=None, newmode=2, extra=(), kf=None, kf_match=None, timeout=900, tag=""):
+def step(prop, tt, h, op, ppos=None, hit=0, newmode=2, remcase=None, extra=(), kf=None, kf_match=None, timeout=900, tag=""):
     n = (1 << h) - 1
     defs = ["TT=%d" % tt, "H=%d" % h, "OP=%d" % op, "NEWMODE=%d" % newmode] + list(extra)
-    if kpos is not None:
-        defs.append("KPOS=%d" % kpos)
-    name = "%s_%s_h%d%s_m%d%s" % (TNAME[tt], OPNAME[op], h, "_k%02d" % kpos if kpos is not None else "", newmode, tag)
+    if ppos is not None:
+        defs += ["PPOS=%d" % ppos, "HIT=%d" % hit]
+        # comparator result magnitude: concrete in step queries (keeps the search path concrete), 1 or 1000 by position parity
+        # (the code may only look at the sign; the unit tests only ever return -1/0/1)
+        defs.append("CMP_MAG=%d" % (1000 if ppos % 2 else 1))
+    if remcase is not None:
+        defs.append("REMCASE=%d" % remcase)
+        tag = "_" + REMNAME(remcase) + tag
+    name = "%s_%s_h%d%s_m%d%s" % (TNAME[tt], OPNAME[op], h, "_p%02d%s" % (ppos, "hit" if hit else "miss") if ppos is not None else "", newmode, tag)
+    us = unwindset(h)
+    if ppos is not None and op in (0, 1):
+        # the search path is concrete: the fix-up loops start at a node of known depth and climb one level (RB insert: two) per round
+        du = depth(ppos)
+        if op == 1 and hit and remcase is not None and remcase >= 3:
+            du = depth(ppos) + 1 + (remcase - 3)          # depth of the in-order predecessor that gets unlinked
+        us["pp_tree_avl_balance_insert.0"] = du + 1
+        us["pp_tree_rb_balance_insert.0"] = du // 2 + 1
+        us["pp_tree_avl_balance_remove.0"] = du + 1
+        us["pp_tree_rb_balance_remove.0"] = du + 1
     return Q(name, "harness/%s_step.c" % prop, units=UNITS, models=MODELS, defs=defs,
-             unwind=2 * n + 4, unwindset=unwindset(h), kf=kf, kf_match=kf_match,
+             unwind=2 * n + 4, unwindset=us, kf=kf, kf_match=kf_match,
              funcs=COMMON_FUNCS + FUNCS[tt],
              bounds={"tree_type": TNAME[tt], "pre_state": "every valid tree of height <= %d (<= %d nodes), shape/colours/balance symbolic" % (h, n),
-                     "operation": OPNAME[op], "op_key_position": kpos if kpos is not None else "symbolic",
+                     "operation": OPNAME[op], "search_ends_at": ("skeleton position %d (%s)" % (ppos, "key stored there" if hit else "NULL link, key absent")) if ppos is not None else "symbolic",
                      "constructor": ["p_tree_new", "p_tree_new_with_data", "p_tree_new_full+notifiers"][newmode]},
              timeout=timeout)
+
+
+def depth(p):
+    return p.bit_length() - 1
+
+
+def insert_new_cases(h):
+    """search falls off the tree at NULL link p (all ancestors present): p = 1..2N+1"""
+    return list(range(1, 2 * ((1 << h) - 1) + 2))
+
+
+def hit_cases(h):
+    return list(range(1, (1 << h)))
+
+
+def remcases(h, p):
+    """neighbourhoods of a stored node p that decide which node gets unlinked"""
+    hs = h - 1 - depth(p)          # levels of the skeleton below p
+    out = [0]
+    if hs >= 1:
+        out += [1, 2] + [3 + j for j in range(hs)]
+    return out
+
+
+def two_child(rc):
+    return rc is not None and rc >= 3
+
+
+def hist(prop, tt, nops, newmode=2, extra=(), timeout=1500, u=None, tag=""):
+    u = u or nops   # ranks 1..nops realise every relative order of <= nops keys
+    defs = ["TT=%d" % tt, "NOPS=%d" % nops, "NEWMODE=%d" % newmode, "U=%d" % u] + list(extra)
+    us = unwindset(nops - 1, 1)   # before every call the tree has height <= nops-1; after the last one <= nops
+    us["has_two_children.0"] = nops + 1
+    return Q("%s_hist%d_m%d%s" % (TNAME[tt], nops, newmode, tag), "harness/%s_hist.c" % prop, units=UNITS, models=MODELS, defs=defs,
+             unwind=max(u, nops) + 3, unwindset=us, funcs=COMMON_FUNCS + FUNCS[tt],
+             bounds={"tree_type": TNAME[tt], "history": "%d symbolic insert/remove calls from the empty tree, public API only" % nops,
+                     "key_universe": u, "constructor": ["p_tree_new", "p_tree_new_with_data", "p_tree_new_full+notifiers"][newmode]},
+             timeout=timeout)
+
+
+def thorough_h4(prop, extra=(), newmode=None, types=(0, 1, 2), skip_two_child=False):
+    """H=4 (<= 15 nodes before the step): every insert position, replace and removal neighbourhood for the given types.
+    RB/AVL removals of a stored key cost 30-220 s and 0.8-2 GB each (fix-up loop bounds are tight per case)."""
+    h, qs = 4, []
+    for tt in types:
+        for p in insert_new_cases(h):
+            qs.append(step(prop, tt, h, 0, p, 0, newmode=p % 2 if newmode is None else newmode, extra=extra, timeout=1800))
+        for p in hit_cases(h):
+            qs.append(step(prop, tt, h, 0, p, 1, newmode=(p + 1) % 2 if newmode is None else newmode, extra=extra, timeout=1800))
+            for rc in remcases(h, p):
+                if skip_two_child and two_child(rc):
+                    continue
+                qs.append(step(prop, tt, h, 1, p, 1, newmode=(p + rc) % 2 if newmode is None else newmode, remcase=rc, extra=extra,
+                               timeout=3000))
+    return qs
+
+
+def quick_h4_removals(prop, extra=(), newmode=1, types=(1, 2)):
+    """the H=4 removals that the H=3 skeleton cannot express: a leaf at depth 2 is removed, the fix-up rotates at depth 1 and
+    must then stop or propagate correctly to the root (left and right mirror image)"""
+    return [step(prop, tt, 4, 1, p, 1, newmode=newmode, remcase=0, extra=extra, timeout=901) for tt in types for p in (4, 7)]
+
+
+def avl_hist(prop, newmode, tier, extra=()):
+    """AVL from-empty histories: fully symbolic AVL histories are out of reach for CBMC (3 symbolic inserts: 135 s / 3.7 GB, see lessons), so
+    a prefix of inserts with runner-chosen key order is fixed and the LAST call (kind and key) is symbolic."""
+    qs = [hist(prop, 2, 3, newmode, extra=["NFIX=2", "KEYSEQ=%s" % ks] + dup + list(extra), u=5, tag="_" + ks.replace(",", ""))
+          for ks, dup in (("2,4", []), ("4,2", []), ("2,2", ["PREFIX_DUP"]))]
+    if tier == "thorough":
+        import itertools
+        for perm in itertools.permutations((2, 4, 6)):
+            ks = ",".join(map(str, perm))
+            qs.append(hist(prop, 2, 4, newmode, extra=["NFIX=3", "KEYSEQ=%s" % ks] + list(extra), u=7, tag="_" + ks.replace(",", "")))
+    return qs
